@@ -12,8 +12,10 @@ import time
 import traceback
 
 ROOT = os.path.dirname(os.path.dirname(os.path.abspath(__file__)))
-EVIDENCE = os.path.join(ROOT, 'evidence')
-REPLAYS = os.path.join(ROOT, 'replays')
+# a scratch run against a copy of the repository (KYUPY_REPO, developer self-test) must not touch the real evidence
+_OUT = os.environ.get('VERIF_OUT') if os.environ.get('KYUPY_REPO') else None
+EVIDENCE = os.path.join(_OUT or ROOT, 'evidence')
+REPLAYS = os.path.join(_OUT or ROOT, 'replays')
 FINDINGS = os.path.join(ROOT, 'known_findings.json')
 
 
@@ -166,6 +168,33 @@ def pyvc_violations(res):
             viol.detail = {'replay_error': ''.join(traceback.format_exception_only(e)).strip()}
         viol.solver = solver
         out.append(viol)
+    # undecided obligations: bounded refutation (finite expansion of the quantifiers) + replay; only a counterexample that
+    # reproduces on the real code is reported, anything else stays undecided
+    from pyvc.discharge import bounded_refute
+    tried = set()
+    for t, c, v in rep.open():
+        key = f'{v.obl.name}@{t.fullname}'
+        if c.finite is None or c.replay is None or key in tried or len(tried) >= 6:
+            continue
+        tried.add(key)
+        try:
+            ex = rep.execs[(t.fullname, c.name)]
+            lo, hi, extra = c.finite(ex)
+            m = bounded_refute(v.obl, lo, hi, extra)
+            if m is None:
+                continue
+            r = c.replay(m, v.obl, ex)
+            if r is None:
+                continue
+            result = run_runner(*r)
+            if result.get('reproduced'):
+                viol = Violation(key, f'obligation `{v.obl.name}` of {t.fullname} (line {v.obl.lineno}, config {c.name}) undecided by the solver; '
+                                      f'a bounded refutation (quantifiers over [{lo},{hi}]) gave an input that fails on the real code',
+                                 r[0], r[1], True, result, 'obligation', t.fullname, v.obl.name)
+                viol.solver = {'status': 'unknown/timeout on the unbounded obligation; sat on its finite expansion', 'domain': [lo, hi]}
+                out.append(viol)
+        except Exception as e:  # noqa
+            continue
     return out
 
 
